@@ -142,7 +142,7 @@ PROPS = {
         'level': 'other',
         'proof': [('contracts.statements_df', None)],
         'bounded': [],
-        'custom': [('contracts.b_stmts', 'bounded_dataflow')],
+        'custom': [('contracts.b_stmts', 'bounded_dataflow'), ('contracts.b_depgraph', 'bounded_depgraph')],
         'assumptions': [PY_SUBSET],
         'explanation': 'last-assignment lookup, find_assignment, find_assignment_index and reassign (exactly one '
                        'assignment of the symbol remains, it is the new one, nothing in front of the first old one '
